@@ -153,6 +153,8 @@ class CGen:
         for i, k in enumerate(STD_EXC_PARENT):
             self.tid[k] = i + 1
         self._collect_typeinfo()
+        self.retype = {}
+        self._collect_retype()
 
     # ------------------------------------------------------------------ types
     def ctype(self, t):
@@ -222,6 +224,8 @@ class CGen:
             rt = t
             if t.kind == "named":
                 rt = self.m.types.get(t.name)
+                if t.name in self.retype:
+                    self.ctype(self.retype[t.name])
             if rt is not None:
                 if rt.kind == "struct":
                     for f in rt.fields:
@@ -277,6 +281,8 @@ class CGen:
         name2t = {n: t for (n, t) in self.tdefs}
 
         def deps(t):
+            if t.kind == "named" and t.name in self.retype:
+                return [self.retype[t.name]]
             rt = self.m.types.get(t.name) if t.kind == "named" else t
             if rt is None:
                 return []
@@ -291,6 +297,12 @@ class CGen:
             for d in deps(t):
                 emit(self.sname(d), d)
             rt = self.m.types.get(t.name) if t.kind == "named" else t
+            if t.kind == "named" and t.name in self.retype:
+                tt = self.retype[t.name]
+                emit(self.sname(tt), tt)
+                o.append("struct %s { %s f0; }; /* in-place storage retyped */" % (n, self.ctype(tt)))
+                o.append("_Static_assert(sizeof(struct %s) == %d, \"layout %s\");" % (n, self.m.sizeof(t), n))
+                return
             if rt is None:
                 o.append("struct %s { u8 opaque_; };" % n)
                 return
@@ -319,6 +331,74 @@ class CGen:
         for (n, t) in list(self.tdefs):
             emit(n, t)
         return o
+
+    # ------------------------------------------------------------- in-place storage retyping
+    def _byte_storage_size(self, t, depth=0):
+        """N if t is (a single-field nest of structs around) [N x i8], else None"""
+        if depth > 4:
+            return None
+        if t.kind == "named":
+            rt = self.m.types.get(t.name)
+            return self._byte_storage_size(rt, depth + 1) if rt is not None else None
+        if t.kind == "struct" and len(t.fields) == 1:
+            return self._byte_storage_size(t.fields[0], depth + 1)
+        if t.kind == "array" and t.elem.kind == "int" and t.elem.bits == 8:
+            return t.n
+        return None
+
+    def _collect_retype(self):
+        """libstdc++ make_shared keeps the payload T in a byte array (__aligned_buffer).  Pointers written into a
+        byte array are lost to cbmc's constant propagation (every later virtual call fans out), so the buffer type
+        is emitted as 'struct { T f0; }' when T can be identified: from a bitcast of the buffer to T*, or from the
+        C++ name of the enclosing _Sp_counted_ptr_inplace<T,...>::_Impl.  Layout (size, offsets) is unchanged."""
+        m = self.m
+        cand = {}
+        for f in m.funcs.values():
+            for ins in f.instrs():
+                if ins.op == "bitcast" and ins.ops[0].ty.kind == "ptr" and ins.ty.kind == "ptr":
+                    st, dt = ins.ops[0].ty.elem, ins.ty.elem
+                    if st.kind == "named" and dt.kind == "named" and not m.is_opaque(dt) and "__aligned_buffer" in st.name:
+                        n = self._byte_storage_size(st)
+                        if n is not None and m.resolve(dt).kind == "struct":
+                            try:
+                                if m.sizeof(dt) == n:
+                                    cand.setdefault(st.name, set()).add(dt.name)
+                            except IRError:
+                                pass
+        for name, t in m.types.items():
+            mo = re.match(r"class\.std::_Sp_counted_ptr_inplace<(.*)>::_Impl$", name)
+            if not mo or t is None or len(t.fields) != 1 or t.fields[0].kind != "named":
+                continue
+            buf = t.fields[0].name
+            if buf in cand:
+                continue
+            n = self._byte_storage_size(t.fields[0])
+            if n is None:
+                continue
+            # first template argument
+            args = mo.group(1)
+            depth = 0
+            first = ""
+            for ch in args:
+                if ch == "<":
+                    depth += 1
+                elif ch == ">":
+                    depth -= 1
+                elif ch == "," and depth == 0:
+                    break
+                first += ch
+            base = re.sub(r"<.*", "", first).strip()
+            for tn, tt in m.types.items():
+                if tt is None or tt.kind != "struct":
+                    continue
+                if re.match(r"(struct|class)\." + re.escape(base) + r"(\.\d+)?$", tn):
+                    try:
+                        if m.sizeof(tt) == n:
+                            cand.setdefault(buf, set()).add(tn)
+                    except IRError:
+                        pass
+        for buf, ts in cand.items():
+            self.retype[buf] = Type("named", name=sorted(ts)[0])
 
     # ------------------------------------------------------------- typeinfo
     def _collect_typeinfo(self):
@@ -468,7 +548,24 @@ class CGen:
         else:
             e = "%s[%s]" % (base, self.sidx(first, valf))
         t = srcty
-        for ix in idxs[1:]:
+        rest = idxs[1:]
+        for k, ix in enumerate(rest):
+            if t.kind == "named" and t.name in self.retype:
+                # remaining path runs inside retyped in-place storage: constant byte offset from its start
+                off = 0
+                tt = t
+                for jx in rest[k:]:
+                    rt = self.m.resolve(tt)
+                    if jx.kind != "int":
+                        raise IRError("symbolic index inside retyped storage")
+                    if rt.kind == "struct":
+                        off += self.m.field_offset(rt, jx.v)
+                        tt = rt.fields[jx.v]
+                    else:
+                        off += jx.v * self.m.sizeof(rt.elem)
+                        tt = rt.elem
+                self.ctype(srcty)
+                return "((%s)((u8*)&%s + %d))" % (self.ctype(rty), e, off)
             rt = self.m.resolve(t)
             if rt.kind == "struct":
                 e += ".f%d" % ix.v
@@ -617,11 +714,13 @@ class CGen:
                        "vp_objsz[__CPROVER_POINTER_OBJECT(p)] = nbytes + 1; return p; }" % (ct, san(ct), ct, ct, ct, sz, sz))
             out.append("static %s *vp_newc_%s(u64 n) { %s *p = (%s*)malloc(sizeof(%s) * n); __CPROVER_assume(p != 0); return p; }" % (ct, san(ct), ct, ct, ct))
         for ct, sz in sorted(self.copy_helpers.items()):
-            out.append("static void vp_copy_%s(%s *d, const %s *s, u64 nbytes) { u64 n = nbytes / %d; "
-                       "__CPROVER_assert(nbytes %% %d == 0, \"HARNESS:typed copy of partial element\"); if ((u64)d <= (u64)s || (u64)d >= (u64)s + nbytes) { for (u64 i = 0; i < n; i++) d[i] = s[i]; } "
-                       "else { for (u64 i = n; i > 0; i--) d[i-1] = s[i-1]; } }" % (san(ct), ct, ct, sz, sz))
+            out.append("static void vp_copy_%s(%s *d, const %s *s, u64 nbytes) { u64 n = nbytes / %d; u64 rem = nbytes - n * %d; "
+                       "if ((u64)d <= (u64)s || (u64)d >= (u64)s + nbytes) { for (u64 i = 0; i < n; i++) { VP_CHK(d+i,%d); VP_CHK(s+i,%d); d[i] = s[i]; } "
+                       "if (rem) vp_memcpy((u8*)(d+n), (const u8*)(s+n), rem); } "
+                       "else { if (rem) vp_memmove((u8*)(d+n), (const u8*)(s+n), rem); for (u64 i = n; i > 0; i--) { VP_CHK(d+i-1,%d); VP_CHK(s+i-1,%d); d[i-1] = s[i-1]; } } }"
+                       % (san(ct), ct, ct, sz, sz, sz, sz, sz, sz))
         for ct, sz in sorted(self.zero_helpers.items()):
-            out.append("static void vp_zero_%s(%s *d, u64 nbytes) { u64 n = nbytes / %d; for (u64 i = 0; i < n; i++) d[i] = 0; }" % (san(ct), ct, sz))
+            out.append("static void vp_zero_%s(%s *d, u64 nbytes) { u64 n = nbytes / %d; for (u64 i = 0; i < n; i++) { VP_CHK(d+i,%d); d[i] = 0; } if (nbytes - n * %d) vp_memset((u8*)(d+n), 0, nbytes - n * %d); }" % (san(ct), ct, sz, sz, sz, sz))
         for (nm, decl, init) in gl:
             if init is not None:
                 g, ct, nm, tl = init
@@ -1397,6 +1496,148 @@ class CGen:
                 return et
         return None
 
+    def typed_root(self, v):
+        """(root value, root elem type, byte offset): outermost typed object the i8*-ish pointer v points into,
+        following bitcasts and all-constant GEPs backwards"""
+        off = 0
+        cur = v
+        best = None
+        for _ in range(16):
+            if cur.ty is not None and cur.ty.kind == "ptr":
+                t = cur.ty.elem
+                if t.kind in ("named", "struct", "array") and not self.m.is_opaque(t):
+                    try:
+                        self.m.sizeof(t)
+                        best = (cur, t, off)
+                    except IRError:
+                        pass
+                elif best is None and t.kind in ("int", "ptr", "float", "double") and not (t.kind == "int" and t.bits == 8):
+                    best = (cur, t, off)
+            d = None
+            if cur.kind == "local":
+                d = self.defs.get(cur.v)
+                if d is None:
+                    break
+                op, ops, srcty = d.op, d.ops, d.attrs.get("srcty")
+            elif cur.kind == "cexpr":
+                op, ops, srcty = cur.v, cur.ops, (cur.extra or {}).get("srcty")
+            else:
+                break
+            if op == "bitcast" and ops[0].ty.kind == "ptr":
+                cur = ops[0]
+                continue
+            if op == "getelementptr" and all(o.kind == "int" for o in ops[1:]):
+                t = srcty
+                o = ops[1].v * self.m.sizeof(t)
+                ok = True
+                for ix in ops[2:]:
+                    rt = self.m.resolve(t)
+                    if rt.kind == "struct":
+                        o += self.m.field_offset(rt, ix.v)
+                        t = rt.fields[ix.v]
+                    elif rt.kind in ("array", "vector"):
+                        o += ix.v * self.m.sizeof(rt.elem)
+                        t = rt.elem
+                    else:
+                        ok = False
+                        break
+                if not ok:
+                    break
+                off += o
+                cur = ops[0]
+                continue
+            break
+        return best
+
+    def leaves(self, t, base=0, out=None, limit=80):
+        """flatten type into [(offset, scalar type)] honouring in-place storage retyping"""
+        if out is None:
+            out = []
+        if len(out) > limit:
+            raise IRError("too many leaves")
+        if t.kind == "named" and t.name in self.retype:
+            return self.leaves(self.retype[t.name], base, out, limit)
+        rt = self.m.resolve(t) if t.kind == "named" else t
+        if rt.kind == "struct":
+            for i, f in enumerate(rt.fields):
+                self.leaves(f, base + self.m.field_offset(rt, i), out, limit)
+        elif rt.kind in ("array", "vector"):
+            es = self.m.sizeof(rt.elem)
+            for i in range(rt.n):
+                self.leaves(rt.elem, base + i * es, out, limit)
+        else:
+            out.append((base, rt))
+        return out
+
+    def tile(self, root, n):
+        """leaf scalars of the root object lying inside [off, off+n); None if a leaf straddles the range"""
+        (rv, rt, off) = root
+        try:
+            if off < 0 or off + n > self.m.sizeof(rt):
+                return None
+            lv = self.leaves(rt)
+        except IRError:
+            return None
+        sel = []
+        for (o, t) in lv:
+            sz = self.m.sizeof(t)
+            if o + sz <= off or o >= off + n:
+                continue
+            if o < off or o + sz > off + n:
+                return None
+            if t.kind not in ("int", "ptr", "float", "double") or (t.kind == "int" and t.bits not in (8, 16, 32, 64)):
+                return None
+            sel.append((o - off, t))
+        return sel
+
+    def tiled_copy(self, d, s, n):
+        rd, rs = self.typed_root(d), self.typed_root(s)
+        td = self.tile(rd, n) if rd else None
+        ts = self.tile(rs, n) if rs else None
+        if td is None and ts is None:
+            return None
+        if td is not None and ts is not None:
+            # use the finer of the two tilings only if they agree on boundaries; else prefer destination
+            kd = [(o, self.m.sizeof(t)) for o, t in td]
+            ks = [(o, self.m.sizeof(t)) for o, t in ts]
+            tl = td if kd == ks or len(td) >= len(ts) else ts
+        else:
+            tl = td or ts
+        if not tl or len(tl) > 48:
+            return None
+        dv, sv = self.val(d), self.val(s)
+        out = []
+        tmps = []
+        for (o, t) in tl:
+            ct = self.ctype(t)
+            self.tmpn += 1
+            tn = "vp_t%d" % self.tmpn
+            self.decls.append("%s %s;" % (ct, tn))
+            out.append("%s = *(%s*)((u8*)%s + %d);" % (tn, ct, sv, o))
+            tmps.append((tn, ct, o))
+        for (tn, ct, o) in tmps:
+            out.append("*(%s*)((u8*)%s + %d) = %s;" % (ct, dv, o, tn))
+        return out
+
+    def tiled_set(self, d, c, n):
+        rd = self.typed_root(d)
+        tl = self.tile(rd, n) if rd else None
+        if not tl or len(tl) > 48:
+            return None
+        c &= 0xff
+        dv = self.val(d)
+        out = []
+        for (o, t) in tl:
+            ct = self.ctype(t)
+            if t.kind == "int":
+                val = int.from_bytes(bytes([c]) * (t.bits // 8), "little")
+                out.append("*(%s*)((u8*)%s + %d) = %dULL;" % (ct, dv, o, val))
+            elif c == 0:
+                out.append("*(%s*)((u8*)%s + %d) = 0;" % (ct, dv, o))
+            else:
+                return None
+        return out
+
     def leaf_type(self, t):
         while t is not None and t.kind in ("named", "struct", "array"):
             if self.m.is_opaque(t):
@@ -1557,6 +1798,14 @@ class CGen:
             return []
         if n1 == "assume":
             return []
+        if n1 in ("memcpy", "memmove") and a[2].kind == "int" and a[2].v <= 256:
+            r = self.tiled_copy(a[0], a[1], a[2].v)
+            if r is not None:
+                return r
+        if n1 == "memset" and a[2].kind == "int" and a[2].v <= 256 and a[1].kind == "int":
+            r = self.tiled_set(a[0], a[1].v, a[2].v)
+            if r is not None:
+                return r
         if n1 in ("memcpy", "memmove"):
             d, s, n = a[0], a[1], a[2]
             td, ts = self.ptr_origin_type(d), self.ptr_origin_type(s)
@@ -1569,7 +1818,7 @@ class CGen:
                 ld, ls = self.leaf_type(td), self.leaf_type(ts)
                 if ld is not None and ls is not None and ld.key() == ls.key():
                     et = ld
-                elif (ld is None) != (ls is None):
+                elif (ld is None) != (ls is None) and n.kind == "int":
                     et = ld or ls
             if et is not None:
                 sz = self.m.sizeof(et)
